@@ -734,7 +734,12 @@ class DoIPConnection:
         payload = AliveCheckResponse(
             SourceAddress=self.src_addr,
         )
-        await self.write_request_raw(hdr, payload)
+        # This is called by the read worker. It must not wait for the mutex, which is held
+        # while a writer awaits its ACK and while a reader waits for the next frame; otherwise
+        # the worker stalls and neither the ACK nor the awaited message is ever parsed.
+        self.writer.write(hdr.pack() + payload.pack())
+        await self.writer.drain()
+        logger.trace("Sent DoIP message: hdr: %s, payload: %s", hdr, payload)
 
     async def close(self) -> None:
         logger.debug("Closing DoIP connection...")
